@@ -227,6 +227,7 @@ struct Driver
     alignas(Twin) unsigned char tstore[NV + 1][sizeof(Twin)];
     int tstate[NV + 1] = {0, 0, 0, 0};
     std::size_t last_construct[NV + 1][2] = {};
+    bool as_constructed[NV + 1] = {};  // nothing but EmplaceC / CmpAll happened to the vector since its Construct
     Twin& TW(int v) { return *std::launder(reinterpret_cast<Twin*>(tstore[v])); }
     void drop_twin(int v)
     {
@@ -974,7 +975,11 @@ struct Driver
         bool thrown = false;
         std::string why;
         if (op.n != "EmplaceC" && op.n != "CmpAll" && op.n != "Construct")
-            for (int q = 1; q <= NV; ++q) drop_twin(q);
+            for (int q = 1; q <= NV; ++q)
+            {
+                drop_twin(q);
+                as_constructed[q] = false;
+            }
         ledger().take_sub();
         const int fault = pending_fault;
         pending_fault = 0;
@@ -988,6 +993,7 @@ struct Driver
                 vstate[v] = 1;
                 last_construct[v][0] = static_cast<std::size_t>(op.a[0]);
                 last_construct[v][1] = static_cast<std::size_t>(op.a[1]);
+                as_constructed[v] = true;
             }
             else if (op.n == "DefaultConstruct")
             {
@@ -1138,7 +1144,7 @@ struct Driver
                     std::vector<int> vs(op.a.begin() + 1, op.a.end());
                     vs.push_back(0);
 #ifndef VERIF_NO_CMP
-                    if (V(v).size() == 0 && !tstate[v]) make_twin(v);
+                    if (V(v).size() == 0 && !tstate[v] && as_constructed[v]) make_twin(v);
                     if (tstate[v] && TW(v).size() == V(v).size()) emplace_twin(v, op.a[0], vs, std::make_index_sequence<N>{});
                     ledger().take_sub();
 #endif
@@ -1545,7 +1551,11 @@ struct Driver
                 else if (c == 10 || c == 11)
                 {
                     op.n = "Reserve";
-                    const int n = static_cast<int>(rnd(static_cast<unsigned>(cap) + 3));
+                    // never more elements than the projection reports (MAXPROJ): the access paths would project
+                    // different parts of a larger vector
+                    const unsigned nmax = static_cast<unsigned>(cap) + 3 > MAXPROJ + 1 ? static_cast<unsigned>(MAXPROJ) + 1
+                                                                                        : static_cast<unsigned>(cap) + 3;
+                    const int n = static_cast<int>(rnd(nmax));
                     const int b = static_cast<int>(book[v].total() + unit * rnd(5));
                     op.a = {n, b};
                 }
@@ -1715,6 +1725,12 @@ inline std::string classify_stderr(const std::string& path, int status)
             msg = line;
             break;
         }
+        if (line.find("VERIF-RUNAWAY") != std::string::npos)
+        {
+            kind = "RUNAWAY";
+            msg = line;
+            break;
+        }
         if (line.find("VERIF-HUGE") != std::string::npos)
         {
             kind = "ALLOC_HUGE";
@@ -1825,7 +1841,7 @@ int driver_main(int argc, char** argv)
             next = static_cast<std::size_t>(prog->hist_index) + 1;
         }
     }
-    ::unlink(errpath.c_str());
+    if (!std::getenv("VERIF_KEEP_STDERR")) ::unlink(errpath.c_str());
     close(fd);
     fprintf(stderr, "driver %s: %zu histories, %ld crashed\n", Cfg::id, plan.size(), crashes);
     return 0;
